@@ -43,6 +43,7 @@ type ConformResult struct {
 	Blocks     int
 	Active     int
 	SupplyOK   int // blocks whose per-asset supply delta equalled the model's event sum
+	MultiEventBlocks int
 	EventKinds map[string]int
 	Final      Dump
 }
@@ -161,12 +162,21 @@ func Conform(sc *Scenario, dbPath string, o ConformOpts) (*ConformResult, *Node,
 			obs.bal, _ = Balances(db)
 		}
 		owners := map[string]map[string]bool{} // addr/t -> owners
+		fromTx := map[string]bool{}
+		kindsHere := map[string]bool{}
 		for _, ev := range m.Events {
 			k := ev.Addr + "/" + Col(ev.T)
 			if owners[k] == nil {
 				owners[k] = map[string]bool{}
 			}
 			owners[k][ev.Owner] = true
+			kindsHere[ev.Kind] = true
+			if strings.HasPrefix(ev.Kind, "transfer") || strings.HasPrefix(ev.Kind, "conv") || strings.HasPrefix(ev.Kind, "peg-") {
+				fromTx[k] = true
+			}
+		}
+		if len(kindsHere) >= 2 {
+			res.MultiEventBlocks++
 		}
 		bad := false
 		seen := map[string]bool{}
@@ -182,6 +192,9 @@ func Conform(sc *Scenario, dbPath string, o ConformOpts) (*ConformResult, *Node,
 			}
 			if len(ow) == 0 {
 				ow = []string{"C04"}
+			}
+			if fromTx[k] {
+				ow = append(ow, "C03") // a batch touched this balance: all-or-nothing / no overdraft
 			}
 			add(Mismatch{h, "balance", ow, fmt.Sprintf("%s %s: model %d, pegnetd %d (events of this block on it: %s)", addr[:12], Tickers[t-1], want, got, eventsOn(m.Events, addr, t))})
 		}
@@ -277,6 +290,24 @@ func Conform(sc *Scenario, dbPath string, o ConformOpts) (*ConformResult, *Node,
 						bad = true
 					}
 				}
+			}
+		}
+		// grading records (C11): graded rows and one coinbase history row per paid record
+		if gi := m.Grades[h]; gi != nil {
+			var nw, ncb int
+			db.QueryRow(`SELECT COUNT(*) FROM pn_winners WHERE height = ?`, h).Scan(&nw)
+			db.QueryRow(`SELECT COUNT(*) FROM pn_history_txbatch b, pn_history_transaction t WHERE b.entry_hash = t.entry_hash AND b.height = ? AND t.action_type = 3 AND t.to_asset = 'PEG' AND b.blockorder = 0 AND length(hex(b.entry_hash)) = 64 AND hex(b.entry_hash) NOT LIKE '000000000000%' AND hex(b.entry_hash) NOT LIKE '0_000000000000%' AND hex(b.entry_hash) NOT LIKE '1_000000000000%'`, h).Scan(&ncb)
+			wantW := 0
+			if gi.Winners > 0 {
+				wantW = gi.GradedN
+			}
+			if nw != wantW {
+				add(Mismatch{h, "winners", []string{"C11"}, fmt.Sprintf("pn_winners has %d rows, the grader graded %d (paid %d)", nw, wantW, gi.Winners)})
+				bad = true
+			}
+			if ncb != gi.Winners+gi.SPRPaid {
+				add(Mismatch{h, "coinbase", []string{"C11", "C17"}, fmt.Sprintf("%d coinbase history rows for grading rewards, %d records were paid", ncb, gi.Winners+gi.SPRPaid)})
+				bad = true
 			}
 		}
 		// bank row (C16)
@@ -420,6 +451,26 @@ func resync(m *Model, db *sql.DB, h uint32) {
 			if st > 0 {
 				m.executed[hash] = true
 			}
+			continue
 		}
+		// the implementation has no record of this entry (a block outside the
+		// specified behaviour dropped it): forget it too
+		delete(m.Hist, hash)
+		for hh, list := range m.holding {
+			var keep []*held
+			for _, x := range list {
+				if x.hash != hash {
+					keep = append(keep, x)
+				}
+			}
+			m.holding[hh] = keep
+		}
+		var seq []string
+		for _, x := range m.HistSeq {
+			if x != hash {
+				seq = append(seq, x)
+			}
+		}
+		m.HistSeq = seq
 	}
 }
